@@ -7,17 +7,30 @@ From AY Require Import Model.Merge Model.Loader Proofs.NodeInd Proofs.FlagsLemma
 Definition tz (t : tagkw) : Prop := t_del t = None /\ t_new t <> Some false.
 Definition kw_new_ok (kw : ckw) : Prop := (if ck_any kw then ck_inew kw else None) <> Some false.
 
+(* what may sit INSIDE a list: no priority tag of its own (the list's priority - its own tag or an enclosing one - applies to it) *)
+Definition tin (t : tagkw) : Prop := tz t /\ t_prio t = None.
+Inductive yin : ynode -> Prop :=
+| yin_s t v : tin t -> yin (YS t v)
+| yin_m t l : tin t -> Forall (fun kx => yin (snd kx)) l -> NoDup (map fst l) -> yin (YM t l)
+| yin_q t l : tin t -> Forall yin l -> yin (YQ t l).
+
 Inductive yz : ynode -> Prop :=
 | yz_s t v : tz t -> yz (YS t v)
-| yz_m t l : tz t -> Forall (fun kx => yz (snd kx)) l -> NoDup (map fst l) -> yz (YM t l).
+| yz_m t l : tz t -> Forall (fun kx => yz (snd kx)) l -> NoDup (map fst l) -> yz (YM t l)
+| yz_q t l : tz t -> Forall yin l -> yz (YQ t l).
+
+Definition kw_idel_true (kw : ckw) : Prop := (if ck_any kw then ck_idel kw else None) = Some true.
 
 Fixpoint yprio (inh : option Z) (y : ynode) : pp :=
   match y with
-  | YS t v => PPS (onone (inh_prio inh t) Facts.default_priority) v
+  | YS t v => PPS (onone (inh_prio inh t) Facts.default_priority) (AS v)
   | YM t l => PPD (onone (inh_prio inh t) Facts.default_priority)
                   ((fix go (l : list (key * ynode)) := match l with [] => [] | (k, x) :: r => (k, yprio (inh_prio inh t) x) :: go r end) l)
-  | YQ t l => PPS 0 SNone
+  | YQ t l => PPS (onone (inh_prio inh t) Facts.default_priority) (AL ((fix go (l : list ynode) := match l with [] => [] | x :: r => yplain x :: go r end) l))
   end.
+
+Lemma yprio_YQ inh t l : yprio inh (YQ t l) = PPS (onone (inh_prio inh t) Facts.default_priority) (AL (map yplain l)).
+Proof. cbn [yprio]. apply f_equal. apply f_equal. induction l as [|x r IH]; [reflexivity|]. cbn [map]. now rewrite IH. Qed.
 
 Lemma yprio_YM inh t l :
   yprio inh (YM t l) = PPD (onone (inh_prio inh t) Facts.default_priority) (map (fun kx => (fst kx, yprio (inh_prio inh t) (snd kx))) l).
@@ -26,12 +39,56 @@ Proof. cbn [yprio]. f_equal. induction l as [|[k x] r IH]; [reflexivity|]. cbn [
 Lemma own_flags_NZ c inh kw t : tz t -> kw_new_ok kw -> NZ (own_flags c inh kw t).
 Proof. intros (h2 & h3) Hk. unfold own_flags, NZ, OZ. cbn. repeat split; auto. Qed.
 
+Lemma own_flags_prio c inh kw t : priority (own_flags c inh kw t) = onone (inh_prio inh t) Facts.default_priority.
+Proof. reflexivity. Qed.
+
+Lemma own_flags_idel c inh kw t : f_idel (own_flags c inh kw t) = (if ck_any kw then ck_idel kw else None).
+Proof. reflexivity. Qed.
+
+(* inside a list: every node gets the list's priority and implicit_delete = True *)
+Lemma load_UN : forall y c inh kw p, yin y -> kw_new_ok kw -> kw_idel_true kw -> onone inh Facts.default_priority = p ->
+  UN p (load c inh kw y).
+Proof.
+  induction y as [t v|t l IH|t l IH] using ynode_ind'; intros c inh kw p Hy Hk Hi Hp.
+  - inversion Hy as [t0 v0 [Ht Hpr]| |]; subst. cbn [load].
+    apply UNLeaf; [now apply own_flags_NZ|rewrite own_flags_idel; exact Hi|].
+    rewrite own_flags_prio. unfold inh_prio. destruct inh; [first [exact Hp|reflexivity]|rewrite Hpr; first [exact Hp|reflexivity]].
+  - inversion Hy as [|t0 l0 [Ht Hpr] HF Hnd|]; subst. rewrite load_YM.
+    pose proof (own_flags_NZ c inh kw t Ht Hk) as HN. destruct Ht as (h2 & h3).
+    set (f := own_flags c inh kw t) in *.
+    assert (Ei : inh_prio inh t = inh) by (unfold inh_prio; destruct inh; [reflexivity|exact Hpr]).
+    assert (Hk' : kw_new_ok (child_kwargs (Comp CDict f SNone []))).
+    { unfold kw_new_ok. cbn [child_kwargs nflags ck_any ck_inew]. unfold f at 1. cbn [own_flags f_new].
+      destruct (t_new t) as [[|]|]; [discriminate|congruence|exact (proj2 (proj2 HN))]. }
+    assert (Hi' : kw_idel_true (child_kwargs (Comp CDict f SNone []))).
+    { unfold kw_idel_true. cbn [child_kwargs nflags ck_any ck_idel default_delete]. unfold f at 1. cbn [own_flags f_del]. rewrite h2, dict_default_delete.
+      unfold f. rewrite own_flags_idel. exact Hi. }
+    apply UNDict; [exact HN|unfold f; rewrite own_flags_idel; exact Hi|unfold f; rewrite own_flags_prio, Ei; first [exact Hp|reflexivity]| |rewrite map_map; cbn [fst]; exact Hnd].
+    rewrite Ei. clear Hy Hnd. induction IH as [|kx r Hkx Hr IHr]; cbn [map]; [constructor|].
+    inversion HF as [|? ? Hx HF']; subst. constructor; [cbn [snd]; apply Hkx; auto|apply IHr; exact HF'].
+  - inversion Hy as [| |t0 l0 [Ht Hpr] HF]; subst. rewrite load_YQ.
+    pose proof (own_flags_NZ c inh kw t Ht Hk) as HN. destruct Ht as (h2 & h3).
+    set (f := own_flags c inh kw t) in *.
+    assert (Ei : inh_prio inh t = inh) by (unfold inh_prio; destruct inh; [reflexivity|exact Hpr]).
+    assert (Hk' : kw_new_ok (child_kwargs (Comp CList f SNone []))).
+    { unfold kw_new_ok. cbn [child_kwargs nflags ck_any ck_inew]. unfold f at 1. cbn [own_flags f_new].
+      destruct (t_new t) as [[|]|]; [discriminate|congruence|exact (proj2 (proj2 HN))]. }
+    assert (Hi' : kw_idel_true (child_kwargs (Comp CList f SNone []))).
+    { unfold kw_idel_true. cbn [child_kwargs nflags ck_any ck_idel default_delete]. unfold f at 1. cbn [own_flags f_del]. rewrite h2, list_default_delete. reflexivity. }
+    apply UNList; [exact HN|unfold f; rewrite own_flags_idel; exact Hi|unfold f; rewrite own_flags_prio, Ei; first [exact Hp|reflexivity]| |apply keys_enum_load_list].
+    rewrite Ei. clear Hy. generalize 0. induction IH as [|x r Hx Hr IHr]; intro i; cbn [load_list]; [constructor|].
+    inversion HF as [|? ? Hx' HF']; subst. constructor; [cbn [snd]; apply Hx; auto|apply IHr; exact HF'].
+Qed.
+
+Lemma lch_load_list c inh kw : forall l i, lch (load_list c inh kw i l) = map yplain l.
+Proof. induction l as [|x r IH]; intro i; cbn [load_list lch map snd]; [reflexivity|]. rewrite load_erase. f_equal. apply IH. Qed.
+
 Lemma load_newz : forall y c inh kw, yz y -> kw_new_ok kw -> kw_idel_none kw ->
   NewZ (load c inh kw y) /\ perase (load c inh kw y) = yprio inh y.
 Proof.
   induction y as [t v|t l IH|t l IH] using ynode_ind'; intros c inh kw Hy Hk Hi.
   - inversion Hy; subst. cbn [load]. split; [constructor; now apply own_flags_NZ|reflexivity].
-  - inversion Hy as [|t0 l0 Ht HF Hnd]; subst. rewrite load_YM, yprio_YM, perase_comp.
+  - inversion Hy as [|t0 l0 Ht HF Hnd|]; subst. rewrite load_YM, yprio_YM, perase_dict.
     pose proof (own_flags_NZ c inh kw t Ht Hk) as HN.
     destruct Ht as (h2 & h3).
     set (f := own_flags c inh kw t) in *.
@@ -50,39 +107,77 @@ Proof.
     destruct G as [G1 G2]. split.
     + constructor; [exact HN|exact Hi|exact G1|rewrite map_map; cbn [fst]; exact Hnd].
     + rewrite G2. reflexivity.
-  - inversion Hy.
+  - inversion Hy as [| |t0 l0 Ht HF]; subst. rewrite load_YQ, yprio_YQ, perase_list, lch_load_list.
+    pose proof (own_flags_NZ c inh kw t Ht Hk) as HN. destruct Ht as (h2 & h3).
+    set (f := own_flags c inh kw t) in *.
+    assert (Hk' : kw_new_ok (child_kwargs (Comp CList f SNone []))).
+    { unfold kw_new_ok. cbn [child_kwargs nflags ck_any ck_inew]. unfold f at 1. cbn [own_flags f_new].
+      destruct (t_new t) as [[|]|]; [discriminate|congruence|exact (proj2 (proj2 HN))]. }
+    assert (Hi' : kw_idel_true (child_kwargs (Comp CList f SNone []))).
+    { unfold kw_idel_true. cbn [child_kwargs nflags ck_any ck_idel default_delete]. unfold f at 1. cbn [own_flags f_del]. rewrite h2, list_default_delete. reflexivity. }
+    split; [|reflexivity].
+    constructor; [exact HN|unfold f; rewrite own_flags_idel; unfold kw_idel_none in Hi; rewrite Hi; discriminate| |apply keys_enum_load_list].
+    unfold f at 1. rewrite own_flags_prio. clear Hy IH. generalize 0. induction HF as [|x r Hx Hr IHr]; intro i; cbn [load_list]; [constructor|].
+    constructor; [cbn [snd]; apply load_UN; auto|apply IHr].
 Qed.
 
 Lemma yprio_pwf : forall y inh, yz y -> pwf (yprio inh y).
 Proof.
   induction y as [t v|t l IH|t l IH] using ynode_ind'; intros inh Hy.
   - constructor.
-  - inversion Hy as [|t0 l0 Ht HF Hnd]; subst. rewrite yprio_YM. constructor; [rewrite map_map; cbn [fst]; exact Hnd|].
+  - inversion Hy as [|t0 l0 Ht HF Hnd|]; subst. rewrite yprio_YM. constructor; [rewrite map_map; cbn [fst]; exact Hnd|].
     clear Hy Hnd. induction IH as [|kx r Hkx Hr IHr]; cbn [map]; [constructor|]. inversion HF; subst. constructor; cbn [snd]; auto.
-  - inversion Hy.
+  - rewrite yprio_YQ. constructor.
 Qed.
 
 Lemma load_doc_newz c y : yz y -> NewZ (load_doc c y) /\ perase (load_doc c y) = yprio None y.
 Proof. intro H. apply load_newz; [exact H|discriminate|reflexivity]. Qed.
 
-(* any number of documents: Builder.flatten builds the left fold of upd_p over their priority images *)
+Lemma perase_load_docs c : forall l, Forall yz l -> map perase (map (load_doc c) l) = map (yprio None) l.
+Proof. induction 1 as [|y r Hy Hr IH]; cbn [map]; [reflexivity|]. now rewrite (proj2 (load_doc_newz c y Hy)), IH. Qed.
+
+(* any number of documents: Builder.flatten builds the left fold of upd_p over their priority images - as long as no mapping meets a list *)
 Theorem flatten_prio_docs e c y0 ys : Forall yz (y0 :: ys) -> forallb is_YM (y0 :: ys) = true ->
+  hcompat (yprio None y0) (map (yprio None) ys) ->
   exists n, flatten e (map (load_doc c) (y0 :: ys)) = Ok n /\ perase n = fold_left upd_p (map (yprio None) ys) (yprio None y0).
 Proof.
-  intros HF HM.
+  intros HF HM Hh.
   assert (HN : Forall NewZ (map (load_doc c) (y0 :: ys))).
-  { clear HM. induction HF as [|y r Hy Hr IHr]; cbn [map]; [constructor|]. constructor; [apply (load_doc_newz c y Hy)|exact IHr]. }
+  { clear HM Hh. induction HF as [|y r Hy Hr IHr]; cbn [map]; [constructor|]. constructor; [apply (load_doc_newz c y Hy)|exact IHr]. }
   assert (HD : forallb is_dictk (map (load_doc c) (y0 :: ys)) = true).
-  { clear HF HN. induction (y0 :: ys) as [|y r IHr]; [reflexivity|]. cbn [forallb map] in *. apply andb_true_iff in HM. destruct HM as [A B].
+  { clear HF HN Hh. induction (y0 :: ys) as [|y r IHr]; [reflexivity|]. cbn [forallb map] in *. apply andb_true_iff in HM. destruct HM as [A B].
     now rewrite (load_doc_dict c y A), IHr. }
-  cbn [map] in HN, HD. destruct (flatten_prio e _ _ HN HD) as (n & E & En). exists n. split; [exact E|].
-  rewrite En. inversion HF as [|? ? H0 HF']; subst. rewrite (proj2 (load_doc_newz c y0 H0)). f_equal.
-  rewrite map_map. clear - HF'. induction HF' as [|y r Hy Hr IHr]; cbn [map]; [reflexivity|]. now rewrite (proj2 (load_doc_newz c y Hy)), IHr.
+  inversion HF as [|? ? H0 HF']; subst.
+  cbn [map] in HN, HD. destruct (flatten_prio e _ _ HN HD) as (n & E & En).
+  { rewrite (proj2 (load_doc_newz c y0 H0)), (perase_load_docs c ys HF'). exact Hh. }
+  exists n. split; [exact E|]. now rewrite En, (proj2 (load_doc_newz c y0 H0)), (perase_load_docs c ys HF').
+Qed.
+
+(* documents without lists: the side condition is vacuous *)
+Fixpoint ynolist (y : ynode) : Prop :=
+  match y with
+  | YS _ _ => True
+  | YM _ l => (fix go (l : list (key * ynode)) : Prop := match l with [] => True | (_, x) :: r => ynolist x /\ go r end) l
+  | YQ _ _ => False
+  end.
+
+Lemma yprio_nolist : forall y inh, ynolist y -> nolist (yprio inh y).
+Proof.
+  induction y as [t v|t l IH|t l IH] using ynode_ind'; intros inh H; [exact I| |contradiction].
+  rewrite yprio_YM. apply nolist_PPD. cbn [ynolist] in H.
+  induction IH as [|[k x] r Hx Hr IHr]; cbn [map]; [constructor|]. destruct H as [A B]. constructor; [cbn [snd]; apply Hx; exact A|apply IHr; exact B].
+Qed.
+
+Lemma hcompat_ynolist y0 ys : Forall ynolist (y0 :: ys) -> hcompat (yprio None y0) (map (yprio None) ys).
+Proof.
+  intro H. inversion H as [|? ? H0 Hr]; subst. apply hcompat_nolist; [apply yprio_nolist; exact H0|].
+  clear - Hr. induction Hr as [|y r Hy Hr' IH]; cbn [map]; constructor; auto. apply yprio_nolist; exact Hy.
 Qed.
 
 (* ... and therefore, at every path whose spine consists of mappings in every document and which holds scalars (where it holds anything):
    the merged value is the one written by the latest document among those of maximal priority *)
 Theorem docs_leaf_path_winner e c y0 ys q : Forall yz (y0 :: ys) -> forallb is_YM (y0 :: ys) = true -> q <> [] ->
+  hcompat (yprio None y0) (map (yprio None) ys) ->
   Forall (fun y => sp (yprio None y) q /\ leafy q (yprio None y)) (y0 :: ys) ->
   exists n, flatten e (map (load_doc c) (y0 :: ys)) = Ok n /\
     match flat_map (wat q) (map (yprio None) (y0 :: ys)) with
@@ -94,7 +189,7 @@ Theorem docs_leaf_path_winner e c y0 ys q : Forall yz (y0 :: ys) -> forallb is_Y
         pget (perase n) q = Some (PPS p v)
     end.
 Proof.
-  intros HF HM Hq HS. destruct (flatten_prio_docs e c y0 ys HF HM) as (n & E & En). exists n. split; [exact E|]. rewrite En.
+  intros HF HM Hq Hh HS. destruct (flatten_prio_docs e c y0 ys HF HM Hh) as (n & E & En). exists n. split; [exact E|]. rewrite En.
   cbn [map]. apply leaf_path_winner; [exact Hq|].
   assert (G : forall l, Forall yz l -> Forall (fun y => sp (yprio None y) q /\ leafy q (yprio None y)) l ->
               Forall (fun d => sp d q /\ pwf d /\ leafy q d) (map (yprio None) l)).
